@@ -49,7 +49,6 @@ AlphaTiny ==
     P("eval", "throw", 2, 0, 0, "js", "none", "none"),
     P("call", "throw", 2, 1, 2, "reenter", "none", "none"),
     P("call", "limit", 1, 1, 0, "js", "loop", "none"),
-    P("construct", "reserr", 0, 0, 0, "js", "none", "notcallable"),
     P("jobs", "throw", 1, 0, 0, "js", "none", "none"),
     P("gen", "limit", 1, 0, 0, "js", "rec", "none"),
     P("module", "throw", 3, 2, 3, "evalfn", "none", "none") }
